@@ -848,6 +848,18 @@ static void run_child(const vj::Value& scn, int fd, bool dump) {
   vj::W w;
   w.beginObj().kv("e", "Build").kv("api", err_name(gen.first_err)).kv("api_at", gen.first_what.c_str())
    .kv("fin", err_name(fe)).kv("msg", eh.msg.c_str()).kv("nodes", nnodes_before);
+  // attribution aid (never part of the verdict): after register allocation, does a variadic call go through rax?
+  bool va_target_rax = false;
+  for (BaseNode* n = cc.first_node(); n; n = n->next()) {
+    if (!n->is_invoke()) continue;
+    InvokeNode* inv = n->as<InvokeNode>();
+    if (!inv->detail().has_var_args()) continue;
+    const Operand& t = inv->target();
+    if (t.is_reg() && t.as<Reg>().id() == x86::Gp::kIdAx) va_target_rax = true;
+    if (t.is_mem() && ((t.as<x86::Mem>().has_base_reg() && t.as<x86::Mem>().base_id() == x86::Gp::kIdAx) ||
+                       (t.as<x86::Mem>().has_index_reg() && t.as<x86::Mem>().index_id() == x86::Gp::kIdAx))) va_target_rax = true;
+  }
+  w.kv("va_target_rax", va_target_rax);
   void* base = nullptr;
   Error ae = Error::kOk;
   uint64_t foff = 0;
